@@ -139,6 +139,10 @@ def run_c01(rep, tier):
         for fx in label_forks(4):
             tasks.append(('CTL', 4, n4 if False else r.sample(n4, 6), dict(fixed=fx, audit=False)))
     else:
+        # n=4, formulas that do not look at the labels: one fork covers every 4-state structure
+        nolab = ['E G true', 'A F false', 'E G (p or not p)', 'A F (q and not q)', 'E(true U false)', 'A(true R true)', 'E X true', 'A G E X true', 'E(true R false)', 'A(false U true)']
+        tasks.append(('CTL', 4, nolab[:5], dict(fixed={k_: False for k_ in list(label_forks(4))[0]}, audit=False)))
+        tasks.append(('CTL', 4, nolab[5:], dict(fixed={k_: True for k_ in list(label_forks(4))[0]}, audit=False)))
         r = rng('c01-n4q')
         forks = list(label_forks(4))
         for fx in r.sample(forks, 16):
@@ -257,6 +261,11 @@ def ctls_set(tier):
     r = rng('ctls-lv2')
     for g in r.sample(lv2, 90 if tier == 'quick' else 300):
         out.append('%s %s' % (r.choice('AE'), P(g)))                                           # two path operators under one quantifier: LTL fallback
+    # n-ary connectives directly under a quantifier (every operand must count); the e>=4 ones take minutes each: thorough only
+    out += ['E (G p or F q or X p)', 'A (G p or F q or X q)', 'A (F p and X q and q)', '(E X p or E X q or A G p)', 'E (X p or X q or X (p and q))', 'E (p or q or X p)',
+            'A (p and q and X q)', 'E (X p or q or p)', 'A (X q or X p or p)', 'E (F p and G q and p)']
+    if tier == 'thorough':
+        out += ['E (X p and F q and G (p or q))', 'A (p or X q or F p or G q)', 'E ((p or q or X p) U (p and q and X q))', 'A ((X p or F q or q) R p)']
     out += ['(E F p and A G q)', '(A X p or E X q)', 'not E (F p and G q)', '(E F G p --> A G F p)', 'A (F G q --> E G p)', 'E (p U (A X q and X p))',
             'E F X q', 'A G F p', 'E G F p', 'E (F p and F q)', 'A (X p or X not p)', 'E (X p and X not p)', 'p', 'true', 'not q',
             '(p and A X E X q)', 'E X A X p', 'A F E G p', 'E (A G p U E G q)', 'A ((E X p) R q)', 'E not (p U q)', 'A not (p R q)', 'A (p --> X p)', 'E G (p --> X q)']
@@ -623,6 +632,8 @@ def run_c06(rep, tier):
     ctlf = formulas.CTL_SINGLE[3:] + formulas.ctl_pairs()[::9]
     ltlf = ['A G p', 'A (p U q)', 'A F G p', 'A (X p or F q)', 'A ((p U q) R p)', 'A (G F p --> F q)'] if tier == 'quick' else ['A %s' % formulas.par(g) for g in formulas.ltl_paths(2)[2][::6]]
     ctlsf = ['E F X q', 'A (F G q --> E G p)', 'E (p U (A X q and X p))', 'E G F p', 'A (X p or X not p)', 'E X A X p']
+    un2 = ['X', 'F', 'G', 'not']
+    ctls_chains = ['%s %s %s %s' % (qf, u1, u2, a) for qf in 'AE' for u1 in un2 for u2 in un2 for a in ('p',)] + ['A (X not q and p)', 'E (X not p or q)', 'A X X p', 'E X not X q']
     tasks = []
     for pm in perms3[1:]:
         tasks += [('CTL', 3, ch, dict(perm=pm, audit=False)) for ch in chunks(ctlf, 10)]
@@ -645,6 +656,8 @@ def run_c06(rep, tier):
     for sd in seeds:
         tasks += [('LTL', 2, ch, dict(tie=sd, audit=False)) for ch in chunks(ltlf, 3)]
         tasks += [('CTLS', 2, ctlsf[:3], dict(tie=sd, audit=False))]
+        tasks += [('CTLS', 1, ch, dict(tie=sd, audit=False)) for ch in chunks(ctls_chains, 9)]
+        tasks += [('CTLS', 2, ch, dict(tie=sd, audit=False)) for ch in chunks(ctls_chains[::3], 3)]
     # an extra state unreachable from the queried ones
     unre = dict(sub_n=2, fixed={'t_0_2': False, 't_1_2': False}, audit=False)
     tasks += [('CTL', 3, ch, dict(unre)) for ch in chunks(ctlf[:20], 10)]
